@@ -35,7 +35,7 @@ def cutAndReconnect : List Ev := [.socketDisconnected, .connectToServer, .socket
 
 /-- protocol-conforming continuation after a (re)connect: SASL PLAIN, stream restart, classic resource binding -/
 def flowSaslBind : List Ev :=
-  [.recv (.header true true), .recv (.features { mechs := some .plain }), .recv .saslSuccess,
+  [.recv (.header true true), .recv (.features { mechs := some .plain }), .recv (.saslSuccess true),
    .recv (.header true true), .recv (.features { bind := true }), .recv (.iq (.bindResult .ok))]
 
 /-- STARTTLS first, then the same -/
@@ -46,7 +46,7 @@ def flowTlsSaslBind : List Ev :=
 def flowSasl2Bind2 : List Ev :=
   [.recv (.header true true),
    .recv (.features { sasl2 := some { mech := .plain, bind2 := true, bind2Ext := true, fast := false, smInline := false } }),
-   .recv (.s2Success .smEnabled .none false), .recv (.features { sm := true })]
+   .recv (.s2Success .smEnabled .none false true), .recv (.features { sm := true })]
 
 /-- legacy XEP-0078 login as a conforming pre-1.0 server runs it -/
 def flowLegacy : List Ev :=
@@ -207,13 +207,13 @@ theorem ph_features_saslPlain {c enc auth sess s} (h : Ph c enc .idle auth sess 
   rw [e]
   exact ⟨⟨h1, h2, h3, h4, rfl, h6, h7, h8⟩, hh⟩
 
-theorem ph_saslSuccess {c enc m fr auth sess s} (h : Ph c enc (.sasl m fr) auth sess s) (hh : s.headerSeen = true) :
-    Ph c enc .idle true sess (step s (.recv .saslSuccess)).1 ∧ (step s (.recv .saslSuccess)).1.headerSeen = true := by
+theorem ph_saslSuccess {c enc fr auth sess s} (h : Ph c enc (.sasl .plain fr) auth sess s) (hh : s.headerSeen = true) :
+    Ph c enc .idle true sess (step s (.recv (.saslSuccess true))).1 ∧ (step s (.recv (.saslSuccess true))).1.headerSeen = true := by
   obtain ⟨h1, h2, h3, h4, h5, h6, h7, h8⟩ := h
-  have e : (step s (.recv .saslSuccess)).1 =
+  have e : (step s (.recv (.saslSuccess true))).1 =
       { s with authenticated := true, streamIdSet := false, streamVersionSet := false, listener := .idle,
                smEnabled := false, smResumed := false } := by
-    simp [step, recv, h2, h3, hh, dispatch, h5, saslHandle, handleStart]
+    simp [step, recv, h2, h3, hh, dispatch, h5, saslHandle, handleStart, successOk]
   rw [e]
   exact ⟨⟨h1, h2, h3, h4, rfl, rfl, h7, h8⟩, hh⟩
 
@@ -336,15 +336,15 @@ theorem enableAck_core (s : St) : SameCore { s with ackEnabled := true } (enable
   unfold enableAck
   exact ⟨SameCore.refl _, rfl⟩
 
-theorem ph_s2Success {c enc m fr auth s} (h : Ph c enc (.sasl2 m fr) auth false s) (hh : s.headerSeen = true) :
-    Ph c enc .idle true false (step s (.recv (.s2Success .smEnabled .none false))).1 ∧
-    (step s (.recv (.s2Success .smEnabled .none false))).1.headerSeen = true ∧
-    (step s (.recv (.s2Success .smEnabled .none false))).1.smEnabled = true := by
+theorem ph_s2Success {c enc fr auth s} (h : Ph c enc (.sasl2 .plain fr) auth false s) (hh : s.headerSeen = true) :
+    Ph c enc .idle true false (step s (.recv (.s2Success .smEnabled .none false true))).1 ∧
+    (step s (.recv (.s2Success .smEnabled .none false true))).1.headerSeen = true ∧
+    (step s (.recv (.s2Success .smEnabled .none false true))).1.smEnabled = true := by
   obtain ⟨h1, h2, h3, h4, h5, h6, h7, h8⟩ := h
-  have e : (step s (.recv (.s2Success .smEnabled .none false))).1 =
+  have e : (step s (.recv (.s2Success .smEnabled .none false true))).1 =
       { s with authenticated := true, bind2Bound := true, hasToken := s.hasToken, canResume := true, smEnabled := true,
                ackEnabled := true, listener := .idle } := by
-    simp [step, recv, h2, h3, hh, dispatch, h5, sasl2Handle, onSmEnabled, enableAck]
+    simp [step, recv, h2, h3, hh, dispatch, h5, sasl2Handle, onSmEnabled, enableAck, successOk]
   rw [e]
   exact ⟨⟨h1, h2, h3, h4, rfl, rfl, h7, h8⟩, hh, rfl⟩
 
@@ -371,13 +371,25 @@ theorem flowSasl2Bind2_connects {c enc auth s} (h0 : Ph c enc .idle auth false s
   have a3 := ph_s2Success a2.1 a2.2
   have a4 := ph_features_sm_done a3.1 a3.2.1 htls a3.2.2
   have e : flowSasl2Bind2 = [.recv (.header true true), .recv (.features { sasl2 := some s2z }),
-      .recv (.s2Success .smEnabled .none false), .recv (.features { sm := true })] := rfl
+      .recv (.s2Success .smEnabled .none false true), .recv (.features { sm := true })] := rfl
   rw [e]
   simp only [run_cons, run]
   refine ⟨?_, a4.2⟩
   simp only [List.mem_append]
   right; right; right; left
   exact a4.1
+
+/-- cut + reconnect from any state with a live connection: a fresh, unencrypted, unauthenticated stream -/
+theorem ph_after_cut (s : St) (hc : s.conn = .connected) (hr : s.redirect = false) :
+    Ph s.cfg false .idle false false (run s cutAndReconnect).1 := by
+  rw [cut_reconnect_state s hc hr]
+  exact ⟨rfl, rfl, rfl, rfl, rfl, rfl, rfl, hr⟩
+
+theorem isConnected_of (s : St) (hc : s.conn = .connected) (hs : s.sessionStarted = true) : isConnected s = true := by
+  simp [isConnected, hc, hs]
+
+theorem not_isConnected_of (s : St) (hs : s.sessionStarted = false) : isConnected s = false := by
+  simp [isConnected, hs]
 
 /-! ### counting `connected` / `disconnected` signals -/
 
@@ -444,5 +456,303 @@ theorem openSession_counts (s : St) : nC (openSession s).2 = 1 ∧ nD (openSessi
   unfold openSession
   dsimp only
   constructor <;> simp
+
+/-! ### every cut point of a conforming flow -/
+
+/-- every step of the run is silent about sessions and leaves no session reported -/
+def QuietRun (s : St) : List Ev → Prop
+  | [] => True
+  | e :: es => nC (step s e).2 = 0 ∧ nD (step s e).2 = 0 ∧ (step s e).1.sessionStarted = false ∧ QuietRun (step s e).1 es
+
+theorem quietRun_prefix (evs : List Ev) (s : St) (hs : s.sessionStarted = false) (hq : QuietRun s evs) (k : Nat) :
+    nC (run s (evs.take k)).2 = 0 ∧ nD (run s (evs.take k)).2 = 0 ∧ (run s (evs.take k)).1.sessionStarted = false := by
+  induction evs generalizing s k with
+  | nil => simp [run, hs]
+  | cons e es ih =>
+    cases k with
+    | zero => simp [run, hs]
+    | succ k =>
+      obtain ⟨h1, h2, h3, h4⟩ := hq
+      have := ih (step s e).1 h3 h4 k
+      simp only [List.take_succ_cons, run_cons, nC_append, nD_append, h1, h2, Nat.zero_add]
+      exact this
+
+theorem q_header {c enc l auth s} (h : Ph c enc l auth false s) (i : Bool) :
+    nC (step s (.recv (.header true i))).2 = 0 ∧ nD (step s (.recv (.header true i))).2 = 0 ∧
+    (step s (.recv (.header true i))).1.sessionStarted = false := by
+  have a := ph_header h i
+  rw [a.2.2]
+  exact ⟨rfl, rfl, a.1.sess⟩
+
+theorem q_of_ph {c enc l auth s e} (hph : Ph c enc l auth false (step s e).1)
+    (hout : ∃ k, (step s e).2 = [send s k]) :
+    nC (step s e).2 = 0 ∧ nD (step s e).2 = 0 ∧ (step s e).1.sessionStarted = false := by
+  obtain ⟨k, hk⟩ := hout
+  rw [hk]
+  exact ⟨by simp, by simp, hph.sess⟩
+
+theorem out_features_saslPlain {c enc auth sess s} (h : Ph c enc .idle auth sess s) (hh : s.headerSeen = true)
+    (htls : enc = true ∨ c.tls ≠ .required) (hsasl : c.useSasl = true) (hplain : c.plainOk = true) :
+    ∃ k, (step s (.recv (.features { mechs := some .plain }))).2 = [send s k] := by
+  have hst := noStarttls h { mechs := some .plain } rfl htls
+  obtain ⟨h1, h2, h3, h4, h5, h6, h7, h8⟩ := h
+  exact ⟨.saslAuth .plain, by
+    simp [step, recv, h2, h3, hh, dispatch, h5, idleHandle, handleFeatures, hst, h1, hsasl, startSasl, mechUsable, hplain]⟩
+
+theorem out_saslSuccess {c enc fr auth sess s} (h : Ph c enc (.sasl .plain fr) auth sess s) (hh : s.headerSeen = true) :
+    nC (step s (.recv (.saslSuccess true))).2 = 0 ∧ nD (step s (.recv (.saslSuccess true))).2 = 0 := by
+  obtain ⟨h1, h2, h3, h4, h5, h6, h7, h8⟩ := h
+  have e : (step s (.recv (.saslSuccess true))).2 = (handleStart { s with authenticated := true }).2 := by
+    simp [step, recv, h2, h3, hh, dispatch, h5, saslHandle, successOk]
+  rw [e]
+  simp [handleStart]
+
+theorem out_features_bind {c enc auth sess s} (h : Ph c enc .idle auth sess s) (hh : s.headerSeen = true)
+    (htls : enc = true ∨ c.tls ≠ .required) :
+    nC (step s (.recv (.features { bind := true }))).2 = 0 ∧ nD (step s (.recv (.features { bind := true }))).2 = 0 := by
+  have hst := noStarttls h { bind := true } rfl htls
+  obtain ⟨h1, h2, h3, h4, h5, h6, h7, h8⟩ := h
+  have e : (step s (.recv (.features { bind := true }))).2 =
+      [send { s with bindAvail := true, smAvail := false, csiAvail := false } .bind] := by
+    simp [step, recv, h2, h3, hh, dispatch, h5, idleHandle, handleFeatures, hst, startBind]
+  rw [e]
+  simp
+
+theorem out_bindOk {c enc auth sess s} (h : Ph c enc .bind auth sess s) (hh : s.headerSeen = true)
+    (hsm : s.smAvail = false) :
+    nC (step s (.recv (.iq (.bindResult .ok)))).2 = 1 ∧ nD (step s (.recv (.iq (.bindResult .ok)))).2 = 0 := by
+  obtain ⟨h1, h2, h3, h4, h5, h6, h7, h8⟩ := h
+  have e : (step s (.recv (.iq (.bindResult .ok)))).2 = (openSession s).2 := by
+    simp [step, recv, h2, h3, hh, dispatch, h5, bindHandle, hsm]
+  rw [e]
+  exact openSession_counts s
+
+/-- SASL + bind: nothing is reported before the last element; the last element reports `connected` exactly once -/
+theorem flowSaslBind_cuts {c enc auth s} (h0 : Ph c enc .idle auth false s)
+    (hsasl : c.useSasl = true) (hplain : c.plainOk = true) (htls : enc = true ∨ c.tls ≠ .required) :
+    QuietRun s flowSaslBind.dropLast ∧
+    nC (step (run s flowSaslBind.dropLast).1 (.recv (.iq (.bindResult .ok)))).2 = 1 ∧
+    nD (step (run s flowSaslBind.dropLast).1 (.recv (.iq (.bindResult .ok)))).2 = 0 := by
+  have a1 := ph_header h0 true
+  have a2 := ph_features_saslPlain a1.1 a1.2.1 htls hsasl hplain
+  have o2 := out_features_saslPlain a1.1 a1.2.1 htls hsasl hplain
+  have a3 := ph_saslSuccess a2.1 a2.2
+  have o3 := out_saslSuccess a2.1 a2.2
+  have a4 := ph_header a3.1 true
+  have a5 := ph_features_bind a4.1 a4.2.1 htls
+  have o5 := out_features_bind a4.1 a4.2.1 htls
+  have o6 := out_bindOk a5.1 a5.2.1 a5.2.2
+  have e : flowSaslBind.dropLast = [.recv (.header true true), .recv (.features { mechs := some .plain }), .recv (.saslSuccess true),
+      .recv (.header true true), .recv (.features { bind := true })] := rfl
+  rw [e]
+  refine ⟨⟨(q_header h0 true).1, (q_header h0 true).2.1, (q_header h0 true).2.2, ?_⟩, ?_⟩
+  · refine ⟨(q_of_ph a2.1 o2).1, (q_of_ph a2.1 o2).2.1, a2.1.sess, ?_⟩
+    refine ⟨o3.1, o3.2, a3.1.sess, ?_⟩
+    refine ⟨(q_header a3.1 true).1, (q_header a3.1 true).2.1, a4.1.sess, ?_⟩
+    exact ⟨o5.1, o5.2, a5.1.sess, trivial⟩
+  · simp only [run_cons, run]
+    exact o6
+
+/-! ### `connected` is only reported by a step that finishes the negotiation (any state, any event) -/
+
+macro "cnt_crush" : tactic => `(tactic| ((repeat' split) <;> simp))
+
+@[simp] theorem nC_closeSession (s : St) : nC (closeSession s).2 = 0 := by unfold closeSession; simp
+@[simp] theorem nC_onSocketDisconnected (s : St) : nC (onSocketDisconnected s).2 = 0 := by
+  unfold onSocketDisconnected; dsimp only; cnt_crush
+@[simp] theorem nC_socketClose (s : St) : nC (socketClose s).2 = 0 := by unfold socketClose; cnt_crush
+@[simp] theorem nC_disconnectFromHost (s : St) : nC (disconnectFromHost s).2 = 0 := by unfold disconnectFromHost; simp
+@[simp] theorem nC_reject (s : St) : nC (reject s).2 = 0 := by unfold reject; simp
+@[simp] theorem nC_failAuth (s : St) : nC (failAuth s).2 = 0 := by unfold failAuth; simp
+@[simp] theorem nC_handleStart (s : St) : nC (handleStart s).2 = 0 := by unfold handleStart; simp
+@[simp] theorem nC_startNonSaslAuth (s : St) : nC (startNonSaslAuth s).2 = 0 := by unfold startNonSaslAuth; simp
+@[simp] theorem nC_handleStream (s : St) (v i : Bool) : nC (handleStream s v i).2 = 0 := by
+  unfold handleStream; dsimp only; cnt_crush
+@[simp] theorem nC_startSasl (s : St) (m : Mech) : nC (startSasl s m).2 = 0 := by unfold startSasl; cnt_crush
+@[simp] theorem nC_startSasl2 (s : St) (z : S2Feat) : nC (startSasl2 s z).2 = 0 := by
+  unfold startSasl2; dsimp only; cnt_crush
+@[simp] theorem nC_startBind (s : St) : nC (startBind s).2 = 0 := by unfold startBind; simp
+@[simp] theorem nC_startSmEnable (s : St) : nC (startSmEnable s).2 = 0 := by unfold startSmEnable; simp
+@[simp] theorem nC_startSmResume (s : St) : nC (startSmResume s).2 = 0 := by unfold startSmResume; simp
+@[simp] theorem nC_onSmEnabled (s : St) (b : Bool) : nC (onSmEnabled s b).2 = 0 := by unfold onSmEnabled; simp
+@[simp] theorem nC_onSmResumed (s : St) : nC (onSmResumed s).2 = 0 := by unfold onSmResumed; simp
+theorem nC_handleStarttls (s : St) (f : Features) : ∀ r, handleStarttls s f = some r → nC r.2 = 0 := by
+  intro r hr
+  unfold handleStarttls at hr
+  repeat' split at hr
+  all_goals first | (cases hr; done) | (cases hr; simp)
+
+/-- outcome of a negotiation handler with respect to the `connected` signal -/
+def Done (s : St) (r : R) : Prop :=
+  nC r.2 = 0 ∨ (nC r.2 = 1 ∧ r.1.listener = .idle ∧ r.1.sessionStarted = true ∧ r.1.conn = s.conn)
+
+theorem done_of_zero {s : St} {r : R} (h : nC r.2 = 0) : Done s r := Or.inl h
+
+/-- `openSession` on `t` (same listener/conn as `s`), listener forced idle afterwards or idle already -/
+theorem done_open (s t : St) (pre : List Out) (hpre : nC pre = 0) (hc : t.conn = s.conn) :
+    Done s ({ (openSession t).1 with listener := .idle }, pre ++ (openSession t).2) := by
+  right
+  have sp := openSession_spec t
+  have ct := openSession_counts t
+  refine ⟨by simp [hpre, ct.1], rfl, sp.2.1, ?_⟩
+  exact sp.2.2.1.conn.trans hc
+
+theorem done_open_idle (s t : St) (hl : t.listener = .idle) (hc : t.conn = s.conn) : Done s (openSession t) := by
+  right
+  have sp := openSession_spec t
+  exact ⟨(openSession_counts t).1, sp.2.2.1.listener.trans hl, sp.2.1, sp.2.2.1.conn.trans hc⟩
+
+theorem handleFeatures_done (s : St) (f : Features) (hl : s.listener = .idle) : Done s (handleFeatures s f) := by
+  unfold handleFeatures
+  split
+  · rename_i r hr; exact done_of_zero (nC_handleStarttls s f r hr)
+  · split
+    · exact done_of_zero (by simp)
+    · split
+      · exact done_of_zero (by simp)
+      · split
+        · exact done_of_zero (by simp)
+        · dsimp only
+          split
+          · exact done_of_zero (by simp)
+          · split
+            · exact done_of_zero (by simp)
+            · split
+              · exact done_of_zero (by simp)
+              · exact done_open_idle s _ hl rfl
+
+theorem idleHandle_done (s : St) (e : El) (hl : s.listener = .idle) : Done s (idleHandle s e) := by
+  unfold idleHandle
+  split
+  · exact handleFeatures_done s _ hl
+  all_goals first | exact done_of_zero (by simp) | (split <;> exact done_of_zero (by simp))
+
+theorem starttlsHandle_done (s : St) (e : El) : Done s (starttlsHandle s e) := by
+  unfold starttlsHandle; split <;> exact done_of_zero (by simp)
+
+theorem nonSaslHandle_done (s : St) (e : El) : Done s (nonSaslHandle s e) := by
+  unfold nonSaslHandle
+  split
+  · split <;> exact done_of_zero (by simp)
+  · exact done_of_zero (by simp)
+  · exact done_of_zero (by simp)
+
+theorem saslHandle_done (s : St) (m : Used) (fr : Bool) (e : El) : Done s (saslHandle s m fr e) := by
+  unfold saslHandle
+  split
+  · split <;> exact done_of_zero (by simp)
+  · split <;> exact done_of_zero (by simp)
+  · exact done_of_zero (by simp)
+  · exact done_of_zero (by simp)
+
+theorem enableAck_conn (s : St) : (enableAck s).1.conn = s.conn := rfl
+
+theorem sasl2Handle_done (s : St) (m : Used) (fr : Bool) (e : El) : Done s (sasl2Handle s m fr e) := by
+  unfold sasl2Handle
+  split
+  · split <;> exact done_of_zero (by simp)
+  · rename_i b r tok proof
+    split
+    case isFalse => exact done_of_zero (by simp)
+    dsimp only
+    have c1 : ({ s with authenticated := true, bind2Bound := decide (b ≠ S2Bound.none),
+                          hasToken := s.hasToken || (tok && (s.tokenRequested || s.hasToken)) } : St).conn = s.conn := rfl
+    generalize ({ s with authenticated := true, bind2Bound := decide (b ≠ S2Bound.none),
+                          hasToken := s.hasToken || (tok && (s.tokenRequested || s.hasToken)) } : St) = s1 at c1
+    have c2 : (if r = .resumed then onSmResumed s1 else (s1, [])).1.conn = s.conn ∧
+        nC (if r = .resumed then onSmResumed s1 else (s1, [])).2 = 0 := by
+      split
+      · exact ⟨c1, by simp⟩
+      · exact ⟨c1, by simp⟩
+    generalize (if r = .resumed then onSmResumed s1 else (s1, [])) = r2 at c2
+    have c3 : (if b = .smEnabled then onSmEnabled r2.1 true else (r2.1, [])).1.conn = s.conn ∧
+        nC (if b = .smEnabled then onSmEnabled r2.1 true else (r2.1, [])).2 = 0 := by
+      split
+      · exact ⟨c2.1, by simp⟩
+      · exact ⟨c2.1, by simp⟩
+    generalize (if b = .smEnabled then onSmEnabled r2.1 true else (r2.1, [])) = r3 at c3
+    split
+    · have := done_open s r3.1 (r2.2 ++ r3.2) (by simp [c2.2, c3.2]) c3.1
+      simpa [List.append_assoc] using this
+    · exact done_of_zero (by simp [c2.2, c3.2])
+  · exact done_of_zero (by simp)
+  · exact done_of_zero (by simp)
+  · exact done_of_zero (by simp)
+
+theorem smResumeHandle_done (s : St) (e : El) : Done s (smResumeHandle s e) := by
+  unfold smResumeHandle
+  split
+  · exact done_open s (onSmResumed s).1 (onSmResumed s).2 (by simp) rfl
+  · split
+    · exact done_of_zero (by simp)
+    · have := done_open s s [] rfl rfl
+      simpa using this
+  · exact done_of_zero (by simp)
+
+theorem smEnableHandle_done (s : St) (e : El) : Done s (smEnableHandle s e) := by
+  unfold smEnableHandle
+  split
+  · rename_i resume
+    exact done_open s (onSmEnabled s resume).1 (onSmEnabled s resume).2 (by simp) rfl
+  · have := done_open s s [] rfl rfl
+    simpa using this
+  · exact done_of_zero (by simp)
+
+theorem bindHandle_done (s : St) (e : El) : Done s (bindHandle s e) := by
+  unfold bindHandle
+  split
+  · split
+    · exact done_of_zero (by simp)
+    · have := done_open s s [] rfl rfl
+      simpa using this
+  · exact done_of_zero (by simp)
+  · exact done_of_zero (by simp)
+  · exact done_of_zero (by simp)
+
+theorem dispatch_done (s : St) (e : El) : Done s (dispatch s e) := by
+  unfold dispatch
+  split
+  · rename_i hl; exact idleHandle_done s e hl
+  · exact starttlsHandle_done s e
+  · exact nonSaslHandle_done s e
+  · exact saslHandle_done s _ _ e
+  · exact done_of_zero (by simp)
+  · exact sasl2Handle_done s _ _ e
+  · exact done_of_zero (by simp)
+  · exact smResumeHandle_done s e
+  · exact smEnableHandle_done s e
+  · exact bindHandle_done s e
+
+/-- one step: either no `connected`, or exactly one, and then the listener is idle, the session flag is set and the socket is
+connected -/
+theorem step_done (s : St) (e : Ev) :
+    nC (step s e).2 = 0 ∨
+    (nC (step s e).2 = 1 ∧ (step s e).1.listener = .idle ∧ (step s e).1.sessionStarted = true ∧
+     (step s e).1.conn = .connected) := by
+  cases e with
+  | connectToServer => left; simp only [step]; split <;> simp
+  | socketConnected => left; simp only [step]; split <;> simp
+  | socketError => left; simp [step]
+  | socketDisconnected => left; simp only [step]; cnt_crush
+  | sendIq => left; simp only [step, sendIq]; cnt_crush
+  | recv el =>
+    simp only [step]
+    unfold recv
+    split
+    · left; simp
+    · rename_i hcw
+      have hc : s.conn = .connected := by
+        by_cases hc : s.conn = .connected
+        · exact hc
+        · exact absurd (Or.inl hc) hcw
+      split
+      · left; simp
+      · split
+        · left; simp
+        · split
+          · left; simp
+          · rcases dispatch_done s el with h | h
+            · exact Or.inl h
+            · exact Or.inr ⟨h.1, h.2.1, h.2.2.1, h.2.2.2.trans hc⟩
 
 end Qx.C10
